@@ -484,8 +484,9 @@ def run(ctx: Ctx):
 
 
 META = {
-    "technique": "DDL constraint/foreign-key lint + abstract SQL traces of every store function per call shape + "
-                 "writer/reader agreement rules",
+    "technique": "DDL constraint/foreign-key lint + abstract SQL traces of every store function per call shape (bound values rec"
+                 "orded: row-id provenance, boolean encoding, isotherm types) + writer/reader agreement on pinned multi-row resu"
+                 "lts (regrouping, pairing by id)",
     "level_text": "Static: the schema is parsed for the UNIQUE/FK/NOT NULL constraints that make SQLite refuse duplicates "
                   "and unknown references; every with_connection function is abstractly interpreted for each way of "
                   "passing db_path and each abstract database answer, checking the file opened, FK enforcement first, no "
